@@ -158,6 +158,21 @@ def laws_c14(F):
     L.eq(mag2(w), sinth * sinth)
     L.eq(qdot(a, w), sinth * c2)
     out.append(L)
+    # normalisation of a quaternion: with m = |x| (m*m == |x|^2, m != 0) the result x * (1/m) is unit, lies on the ray of x,
+    # and a unit quaternion is left unchanged (m = 1): unit length, plane and end points of nlerp / slerp follow
+    L = CertLaw('q_normalize', [('x', Q), ('m', R)])
+    x, m = L.vars
+    L.require_eq(m * m, mag2(x))
+    xn = scale(x, R.lit(1) / m)
+    L.eq(mag2(xn), R.lit(1))
+    L.eq(scale(xn, m), x)
+    out.append(L)
+    L = Law('q_weights', [('a', Q), ('b', Q), ('t', R)])
+    a, b, t = L.vars
+    L.eq(add(scale(a, R.lit(1) - R.lit(0)), scale(b, R.lit(0))), a)
+    L.eq(add(scale(a, R.lit(1) - R.lit(1)), scale(b, R.lit(1))), b)
+    L.eq(F['q_dot'](a, F['q_neg'](b)), -F['q_dot'](a, b))
+    out.append(L)
     # lerp end points
     L = Law('q_lerp_ends', [('a', Q), ('b', Q)])
     a, b = L.vars
